@@ -135,6 +135,10 @@ def make_variant(text, qualname, site_index):
     return new, {"kind": kind, "line": line, "before": before, "change": desc}
 
 
+class _VariantTimeout(BaseException):
+    """raised by the per-variant alarm; a BaseException so that no `except Exception` on the way (sympy, ctx.attempt) swallows it"""
+
+
 def _run_one(job):
     prop, root, rel, text, qual, idx, base_keys = job
     from .main import run_property
@@ -147,7 +151,7 @@ def _run_one(job):
     import signal
 
     def _alarm(signum, frame):
-        raise TimeoutError("variant analysis exceeded the time limit")
+        raise _VariantTimeout()
     signal.signal(signal.SIGALRM, _alarm)
     signal.alarm(int(os.environ.get("TYVERIF_VARIANT_TIMEOUT", "25")))
     try:
@@ -164,9 +168,9 @@ def _run_one(job):
     except AnalysisError as e:
         info["outcome"] = "unanalysable"
         info["by"] = [str(e)[:100]]
-    except TimeoutError as e:
+    except _VariantTimeout:
         info["outcome"] = "unanalysable"
-        info["by"] = ["timeout: %s" % e]
+        info["by"] = ["timeout: variant analysis exceeded the per-variant time limit"]
     except Exception as e:   # a crash of the checker on a variant is a checker bug worth seeing
         info["outcome"] = "checker-crash"
         info["by"] = ["%s: %s" % (type(e).__name__, str(e)[:100])]
@@ -197,7 +201,7 @@ def run(ctx, prop, root=None, seed=0, budget=None):
     workers = min(16, os.cpu_count() or 1)
     # wall-clock budget: variants that are not finished by then are reported as not run (never as killed or survived)
     import time
-    deadline = time.time() + float(os.environ.get("TYVERIF_SELFTEST_SECONDS", "420"))
+    deadline = time.time() + float(os.environ.get("TYVERIF_SELFTEST_SECONDS", "300"))
     pool = cf.ProcessPoolExecutor(max_workers=workers)
     futs = [pool.submit(_run_one, j) for j in jobs]
     not_run = 0
